@@ -6,7 +6,7 @@ From FT.lib Require Import Num Arr ArrLemmas Lower NumArr.
 From FT.gen Require Import Common Fteik2d Fteik3d.
 From Coq Require Import Reals.
 From FT.proofs Require Import Sweep2dProofs Sweep3dProofs Solve2dProofs Solve3dProofs.
-From FT.proofs Require OperatorsR NonNeg2d.
+From FT.proofs Require OperatorsR NonNeg2d Pos2d.
 Import ListNotations.
 Open Scope Z_scope.
 
@@ -111,6 +111,69 @@ Theorem C03_solve2d_nonneg :
        (forall i j : Z, 0 <= i <= dim slow 0 -> 0 <= j <= dim slow 1 -> (0 <= get 0 tt [i; j])%R) /\ (0 <= vzero)%R.
 Proof. exact @NonNeg2d.fteik2d_nonneg_get. Qed.
 
+(* with positive slowness the 4-point operator is strictly later than the diagonal neighbour *)
+Theorem C03_four_point_operator_strictly_causal :
+  forall tv te tev vref dz dx : R,
+       (0 < dz)%R ->
+       (0 < dx)%R ->
+       (0 < vref)%R ->
+       (tv <= te + dx * vref)%R ->
+       (te <= tv + dz * vref)%R -> (tev < OperatorsR.four_point tv te tev vref (1 / dz / dz) (1 / dx / dx))%R.
+Proof. exact @Pos2d.four_point_gt_tev. Qed.
+
+(* positive slowness: a returned traveltime is 0 exactly at the node where the solver's own frame puts the source (i_zsa, i_xsa: the source in grid units, snapped to a node when within eps); every other node is > 0 *)
+Theorem C03_solve2d_zero_iff_source_node :
+  forall (slow : arr R) (dz dx zsrc xsrc : R) (nsweep : Z) (grad : bool) (tt ttgrad : arr R) (vzero : R),
+       (0 < dz)%R ->
+       (0 < dx)%R ->
+       wf slow ->
+       1 <= dim slow 0 ->
+       1 <= dim slow 1 ->
+       shape slow = [dim slow 0; dim slow 1] ->
+       (forall i j : Z, 0 <= i < dim slow 0 -> 0 <= j < dim slow 1 -> (0 < get 0 slow [i; j])%R) ->
+       fteik2d slow dz dx zsrc xsrc nsweep grad = Ok (tt, ttgrad, vzero) ->
+       forall i j : Z,
+       0 <= i <= dim slow 0 ->
+       0 <= j <= dim slow 1 ->
+       get 0%R tt [i; j] = 0%R <-> IZR i = i_zsa slow dz dx zsrc xsrc grad /\ IZR j = i_xsa slow dz dx zsrc xsrc grad.
+Proof. exact @Pos2d.fteik2d_zero_iff_source. Qed.
+
+(* at most one node holds 0 *)
+Theorem C03_solve2d_at_most_one_zero :
+  forall (slow : arr R) (dz dx zsrc xsrc : R) (nsweep : Z) (grad : bool) (tt ttgrad : arr R) (vzero : R),
+       (0 < dz)%R ->
+       (0 < dx)%R ->
+       wf slow ->
+       1 <= dim slow 0 ->
+       1 <= dim slow 1 ->
+       shape slow = [dim slow 0; dim slow 1] ->
+       (forall i j : Z, 0 <= i < dim slow 0 -> 0 <= j < dim slow 1 -> (0 < get 0 slow [i; j])%R) ->
+       fteik2d slow dz dx zsrc xsrc nsweep grad = Ok (tt, ttgrad, vzero) ->
+       forall i j i' j' : Z,
+       0 <= i <= dim slow 0 ->
+       0 <= j <= dim slow 1 ->
+       0 <= i' <= dim slow 0 ->
+       0 <= j' <= dim slow 1 -> get 0%R tt [i; j] = 0%R -> get 0%R tt [i'; j'] = 0%R -> i = i' /\ j = j'.
+Proof. exact @Pos2d.fteik2d_at_most_one_zero. Qed.
+
+(* in terms of the inputs only: a zero node is within 1e-15 of a cell of the given source *)
+Theorem C03_solve2d_zero_near_source :
+  forall (slow : arr R) (dz dx zsrc xsrc : R) (nsweep : Z) (grad : bool) (tt ttgrad : arr R) (vzero : R),
+       (0 < dz)%R ->
+       (0 < dx)%R ->
+       wf slow ->
+       1 <= dim slow 0 ->
+       1 <= dim slow 1 ->
+       shape slow = [dim slow 0; dim slow 1] ->
+       (forall i j : Z, 0 <= i < dim slow 0 -> 0 <= j < dim slow 1 -> (0 < get 0 slow [i; j])%R) ->
+       fteik2d slow dz dx zsrc xsrc nsweep grad = Ok (tt, ttgrad, vzero) ->
+       forall i j : Z,
+       0 <= i <= dim slow 0 ->
+       0 <= j <= dim slow 1 ->
+       get 0%R tt [i; j] = 0%R ->
+       (Rabs (IZR i - zsrc / dz) <= 1 / 1000000000000000)%R /\ (Rabs (IZR j - xsrc / dx) <= 1 / 1000000000000000)%R.
+Proof. exact @Pos2d.fteik2d_zero_near_source. Qed.
+
 Print Assumptions C03_solve2d_raises_iff_source_outside.
 Print Assumptions C03_solve3d_raises_iff_source_outside.
 Print Assumptions C03_initial_grid_shape_2d.
@@ -121,3 +184,7 @@ Print Assumptions C03_node_update_nonneg_2d.
 Print Assumptions C03_pass_nonneg_2d.
 Print Assumptions C03_initialisation_nonneg_2d.
 Print Assumptions C03_solve2d_nonneg.
+Print Assumptions C03_four_point_operator_strictly_causal.
+Print Assumptions C03_solve2d_zero_iff_source_node.
+Print Assumptions C03_solve2d_at_most_one_zero.
+Print Assumptions C03_solve2d_zero_near_source.
